@@ -524,12 +524,16 @@ MACRO_CORPUS = [
     ("object-to-function", "#define PLUS ADD\n#define ADD(a, b) a + b\nint x = PLUS(1, 2);\n"),
     ("undef", "#define A 1\n#undef A\nint x = A;\n"),
     ("stringify-expanded", "#define STR(x) #x\n#define XSTR(x) STR(x)\n#define V 42\nconst char *a = STR(V), *b = XSTR(V);\n"),
+    # the three open findings (minimal inputs)
+    ("open-hideset", "#define foo foo + 1\n#define F(b) b\nint r = F(foo);\n"),
+    ("open-stringify-spacing", "#define STR(x) #x\nconst char *s = STR(a+b);\n"),
+    ("open-paste-pp-number", "#define CAT(a, b) a ## b\nint x = CAT(1, x);\n"),
 ]
 
 
 def gen_macro_set(rng):
     names = ["A", "B", "C", "F", "G", "H"]
-    defs, kinds = [], {}
+    defs, kinds, pastes = [], {}, set()
     for nm in rng.sample(names, rng.randint(2, 5)):
         if rng.random() < 0.5:
             body = " ".join(rng.choice(names + ["1", "2", "+", "*", "(", ")", "x"]) for _ in range(rng.randint(1, 5)))
@@ -548,48 +552,99 @@ def gen_macro_set(rng):
                 parts.append("a ## b")
             defs.append(f"#define {nm}({', '.join(params)}) " + " ".join(parts))
             kinds[nm] = len(params)
+            if "##" in " ".join(parts):
+                pastes.add(nm)
     uses = []
     for _ in range(rng.randint(1, 3)):
         nm = rng.choice(list(kinds))
         if kinds[nm] == 0:
             uses.append(nm)
         else:
-            args = [rng.choice(["1", "x", "y + 2", "(3, 4)", rng.choice(list(kinds))]) for _ in range(kinds[nm])]
+            pool = ["1", "x", "v2", rng.choice(list(kinds))] if nm in pastes else ["1", "x", "y + 2", "(3, 4)", "a+b", rng.choice(list(kinds))]
+            args = [rng.choice(pool) for _ in range(kinds[nm])]
             uses.append(f"{nm}({', '.join(args)})")
     return "\n".join(defs) + "\nint r = " + " | ".join(uses) + ";\n"
+
+
+def _norm_strings(toks):
+    return [re.sub(r"\s+", "", t) if t.startswith('"') else t for t in toks]
+
+
+def _has_cycle(src):
+    """some macro name occurs in its own (transitive) replacement list"""
+    bodies = {}
+    for m in re.finditer(r"^#define\s+(\w+)(\([^)]*\))?(.*)$", src, flags=re.M):
+        bodies[m.group(1)] = set(re.findall(r"[A-Za-z_]\w*", m.group(3)))
+    for start in bodies:
+        seen, todo = set(), [start]
+        while todo:
+            n = todo.pop()
+            for d in bodies.get(n, ()):
+                if d == start:
+                    return True
+                if d in bodies and d not in seen:
+                    seen.add(d)
+                    todo.append(d)
+    return False
+
+
+def classify_macro(src, st, pout, got, want):
+    """signature of a difference between ppci and gcc -E on a macro set"""
+    if st == "diag":
+        m = re.search(r'Invalidly glued "(\d\w*)"', pout)
+        return "macro:paste-pp-number" if m else "macro:rejected"
+    if st != "ok":
+        return "macro:internal-error:" + st.split(":", 1)[1]
+    if _norm_strings(got) == _norm_strings(want):
+        return "macro:stringify-spacing"
+    if _has_cycle(src):
+        return "macro:arg-prescan-loses-hideset"
+    return "macro:expansion-differs"
+
+
+MACRO_NAMES = ["A", "B", "C", "F", "G", "H", "N", "V", "X", "ADD", "PLUS", "STR", "XSTR", "CAT", "XCAT", "foo", "f", "g"]
+
+
+def gcc_pp_many(srcs):
+    """one gcc -E -P run for all macro sets: every set is followed by a marker line and #undef of all names"""
+    undef = "".join(f"#undef {n}\n" for n in MACRO_NAMES)
+    text = "".join(f"{src}@@@ {i}\n{undef}" for i, src in enumerate(srcs))
+    ok, out = gcc_pp(text)
+    if not ok:
+        return None
+    parts, cur = [], []
+    for line in out.splitlines():
+        if line.startswith("@@@"):
+            parts.append("\n".join(cur))
+            cur = []
+        else:
+            cur.append(line)
+    return parts if len(parts) == len(srcs) else None
 
 
 def macro_search(ctx):
     cases = [(k, s) for k, s in MACRO_CORPUS]
     for i in range(400 if ctx.thorough else 60):
         cases.append(("gen", gen_macro_set(ctx.rng)))
-    for kind, src in cases:
-        ok, gout = gcc_pp(src)
-        if not ok:
+    gouts = gcc_pp_many([s for _, s in cases])
+    if gouts is None:                      # some set is rejected by gcc: fall back to one run per set
+        gouts = []
+        for _, s in cases:
+            ok, g = gcc_pp(s)
+            gouts.append(g if ok else None)
+    for (kind, src), gout in zip(cases, gouts):
+        if gout is None:
             ctx.count("macro_gcc_rejects")
             continue
         ctx.count("eval_macro")
         st, pout = run_pp(src)
         want = ctokens(gout)
-        if st != "ok":
-            got = st
-        else:
-            got = ctokens(pout)
+        got = ctokens(pout) if st == "ok" else st
         if got != want:
-            sig = "macro:" + (kind if kind != "gen" else classify_macro_diff(src, st))
+            sig = classify_macro(src, st, pout, got, want)
+            ctx.count("macro_diff_" + sig.split(":", 1)[1])
             ctx.fail(sig, f"{src!r}: ppci -> {' '.join(got) if isinstance(got, list) else got + ' ' + pout[:80]!r}, gcc -E -> {' '.join(want)!r}",
                      {"source": src, "kind": kind}, impl=got, spec=want)
-
-
-def classify_macro_diff(src, st):
-    if st != "ok":
-        return "gen:" + st
-    feats = []
-    if "##" in src:
-        feats.append("paste")
-    if re.search(r"#[ab]\b", src):
-        feats.append("stringify")
-    return "gen:" + ("+".join(feats) if feats else "expansion")
 
 
 def replay(ctx, rp):
